@@ -97,13 +97,16 @@ class ClassInfo:
 
 
 class Module:
-    def __init__(self, rel, src):
+    def __init__(self, rel, src, tree=None):
         self.rel = rel
         self.src = src
-        try:
-            self.tree = ast.parse(src, filename=rel)
-        except SyntaxError as e:
-            raise AnalysisError(f'cannot parse {rel}: {e}')
+        if tree is not None:
+            self.tree = tree
+        else:
+            try:
+                self.tree = ast.parse(src, filename=rel)
+            except SyntaxError as e:
+                raise AnalysisError(f'cannot parse {rel}: {e}')
         self.classes: Dict[str, ClassInfo] = {}
         self.functions: Dict[str, FuncInfo] = {}  # top-level
         self.all_functions: List[FuncInfo] = []
@@ -191,7 +194,7 @@ class Module:
 
 
 class Corpus:
-    def __init__(self, repo='/repo', filemap: Optional[Dict[str, str]] = None):
+    def __init__(self, repo='/repo', filemap: Optional[Dict[str, str]] = None, normalize=True):
         self.repo = repo
         self.modules: Dict[str, Module] = {}
         self.extra_files: Dict[str, str] = {}
@@ -221,8 +224,22 @@ class Corpus:
                 else:
                     self.extra_files[k] = v
         self.files = files
+        trees = {}
         for rel, src in sorted(files.items()):
-            self.modules[rel] = Module(rel, src)
+            try:
+                trees[rel] = ast.parse(src, filename=rel)
+            except SyntaxError as e:
+                raise AnalysisError(f'cannot parse {rel}: {e}')
+        self.normalization = None
+        if normalize and not os.environ.get('REPLICAT_VERIF_RAW_AST'):
+            from .normalize import normalize as _normalize
+
+            try:
+                self.normalization = _normalize(trees)
+            except RecursionError as e:  # pragma: no cover
+                raise AnalysisError(f'normalisation failed: {e}')
+        for rel, src in sorted(files.items()):
+            self.modules[rel] = Module(rel, src, trees[rel])
         if not self.modules:
             raise AnalysisError('no modules parsed')
 
